@@ -564,6 +564,64 @@ def c05j(prog, rep):
     rep.floor(R, "token-consuming calls reachable for contextual keywords", n, 4)
 
 
+# adapters that answer "is there an element with property P" when P is their own predicate
+EXISTENTIAL_ADAPTERS = ("any", "find", "position", "rposition", "find_map", "filter")
+BODYLESS_DIRECTIVES = {"Forward", "External"}
+
+
+def c05l(prog, rep):
+    """C05.l — "a statement never drifts to another nesting level": a routine that has no body (`forward`, `external 'lib' name 'x'`,
+    `external; cdecl;`) must not open a local-declarations block — everything that follows would be parsed one level deeper, as
+    its nested routines.  Whether a header is body-less is asked of every token of the header line: in parse_routine the test for
+    the keywords `forward` / `external` is itself the predicate of a search over the line's token types (`any(kind test)`), not a test
+    applied to one token picked by position (the last significant token): the directives take arguments and are followed by others."""
+    R = "C05.l"
+    b = prog.body(LLP + "parse_routine")
+    if not rep.check(b is not None, R, "anchor:parse_routine", "parse_routine not found"):
+        return
+    pb = b.calls_to(LLP + "parse_block")
+    if not rep.check(len(pb) >= 1, R, "anchor:parse_block", "parse_routine no longer opens the block of local declarations through parse_block"):
+        return
+    searches = []
+    for c in b.calls():
+        nm = (c.callee or "").split("::")[-1]
+        if not (c.callee or "").startswith("core::iter::") or nm not in EXISTENTIAL_ADAPTERS or len(c.args) != 2:
+            continue
+        if "get_current_logical_line_token_types(" not in canon(b, c.args[0]):
+            continue
+        clos = b.locals[c.args[1]["place"]["l"]].get("closure") if c.args[1]["k"] in ("copy", "move") else None
+        cb = prog.body(norm(clos)) if clos else None
+        if cb is None:
+            continue
+        try:
+            tc = Table(prog, cb, inline=1)
+        except TooComplex:
+            continue
+        true_kinds = set()
+        exact = True
+        for cons, res in tc.rows:
+            if render(res) == "True":
+                kw = [c2[2] for c2 in cons if c2[0] == "is" and "@Keyword.0" in str(c2[1])]
+                other = [c2 for c2 in cons if not (c2[0] in ("is", "not") and ("Keyword" in str(c2[2]) or "@Keyword.0" in str(c2[1])))]
+                if len(kw) == 1 and not other:
+                    true_kinds.add(kw[0])
+                else:
+                    exact = False
+            elif render(res) != "False":
+                exact = False
+        searches.append((c, nm, true_kinds, exact))
+    good = [s_ for s_ in searches if s_[3] and s_[2] == BODYLESS_DIRECTIVES]
+    reach = False
+    for c, nm, kinds, exact in good:
+        # the answer of the search decides whether parse_block is reached
+        reach = reach or any(b.dominates(c.bb, p.bb) for p in pb)
+    rep.check(bool(good) and reach, R, "bodyless-test-asks-every-token-of-the-header",
+              "parse_routine does not decide `this routine has no body` by searching the whole header line for the keywords forward / external (searches over the line's token types: %s): "
+              "a header on which the directive is not the token looked at (`external 'lib' name 'x'`, `forward; overload;`) opens a declaration block, and every following routine is parsed "
+              "as nested in it, one level too deep" % [(nm, sorted(k)) for _, nm, k, _ in searches],
+              where="%s:%d" % (b.file, b.line), instance={"searches": [(nm, sorted(k), ex) for _, nm, k, ex in searches]})
+
+
 def check_c05(prog, rep, tier, cfg):
     c05e(prog, rep)
     c05a(prog, rep)
@@ -575,6 +633,7 @@ def check_c05(prog, rep, tier, cfg):
     c05h(prog, rep)
     c05i(prog, rep)
     c05j(prog, rep)
+    c05l(prog, rep)
     # C05.k — "indented exactly one level deeper": what is written for a line start is `indentations` copies of the indentation string and
     # `continuations` copies of the continuation string, whatever the depth (shared with C08.a counter <-> string pairing and C10.c: the
     # width strings reach the output only through push / repeat, not through a cache that can be too short)
